@@ -53,6 +53,10 @@ pub struct Profile {
     pub focus: Option<&'static str>,
     /// Candidate values for max-ca-depth.
     pub depths: Vec<usize>,
+    /// Pick the object size limit around actual object sizes (C38).
+    pub size_limits: bool,
+    /// Chance (percent) that dubious hosts are allowed.
+    pub allow_dubious_pct: u64,
 }
 
 #[derive(Clone, Copy, Debug, PartialEq, Eq, PartialOrd, Ord)]
@@ -95,6 +99,8 @@ impl Profile {
             quiet_pct: 15,
             focus: None,
             depths: vec![32],
+            size_limits: false,
+            allow_dubious_pct: 0,
         }
     }
 
@@ -354,6 +360,7 @@ impl Sim {
             cfg.dirty = rng.chance(15, 100);
         }
         cfg.max_depth = *rng.pick(&profile.depths);
+        cfg.allow_dubious = rng.chance(profile.allow_dubious_pct, 100);
         if let Some(stale) = profile.stale { cfg.stale = stale }
         if let Some(pol) = profile.unsafe_vrps { cfg.unsafe_vrps = pol }
         cfg
@@ -496,6 +503,9 @@ impl Sim {
         }
         self.publish(step);
         let transport = self.build_servers(step);
+        if self.profile.size_limits && step == 0 {
+            self.pick_size_limit(&transport);
+        }
         let mut state = self.state.clone();
         let expect = model::evaluate(
             &self.files, &self.world.tals, &self.cfg, &transport, self.now,
@@ -535,6 +545,40 @@ impl Sim {
                 });
             }
         }
+    }
+
+    /// Chooses the object size limit relative to the sizes of the TA
+    /// certificates and RRDP objects actually served.
+    fn pick_size_limit(&mut self, transport: &Transport) {
+        let mut rng = Rng::new(mix(&[self.seed, 700]));
+        let mut sizes: Vec<u64> = Vec::new();
+        for id in transport.https_ta.values() {
+            sizes.push(self.files.get(*id).bytes.len() as u64);
+        }
+        for objects in transport.rrdp_objects.values() {
+            if let Some(max) = objects.values().map(|id| {
+                self.files.get(*id).bytes.len() as u64
+            }).max() {
+                sizes.push(max);
+            }
+        }
+        let limit = match rng.below(10) {
+            0..=2 => None,
+            3 => Some(20_000_000),
+            _ if sizes.is_empty() => Some(2000),
+            _ => {
+                let size = *rng.pick(&sizes);
+                Some((size as i64 + rng.range(-1, 1)) as u64)
+            }
+        };
+        self.cfg.max_object_size = limit;
+        self.stats.fault(match limit {
+            None => "limit-disabled",
+            Some(20_000_000) => "limit-default",
+            _ => "limit-at-object-size",
+        });
+        self.note(format!("object size limit {limit:?} (sizes {sizes:?})"));
+        self.ops.push(json!({"step": 0, "op": "size-limit", "limit": limit}));
     }
 
     fn reset_perm(&self, step: usize) {
@@ -1317,6 +1361,7 @@ impl Sim {
         &mut self, step: usize, expect: &Expect, snapshot: &PayloadSnapshot,
         _transport: &Transport,
     ) {
+        self.check_transport_log(step, expect);
         let (real, dups) = snapshot_to_set(snapshot);
         let strict = self.apply_slurm(&expect.strict);
         let loose = self.apply_slurm(&expect.loose);
@@ -1505,6 +1550,73 @@ impl Sim {
              {}/{}/{}",
             real.len(), used[0], used[1], used[2]
         ));
+    }
+
+    /// C31: no request to a dubious host unless allowed; and the fetches
+    /// the model expects did happen.
+    fn check_transport_log(&mut self, step: usize, expect: &Expect) {
+        let rsync_log = self.rsync.take_log();
+        let http_log = self.http.take_log();
+        let mut fetched_modules = BTreeSet::new();
+        for module in &rsync_log {
+            let host = module.split('/').next().unwrap_or("");
+            if model::is_dubious(host) {
+                if self.cfg.allow_dubious {
+                    self.stats.probe("dubious-fetch-allowed");
+                }
+                else {
+                    self.violation("C31", "dubious-rsync", step, format!(
+                        "rsync was started for module {module} although \
+                         dubious hosts are not allowed"
+                    ));
+                }
+            }
+            if !fetched_modules.insert(module.clone()) {
+                self.violation("C37", "double-fetch-seq", step, format!(
+                    "rsync module {module} fetched twice in one run"
+                ));
+            }
+        }
+        for entry in &http_log {
+            let host = entry.uri.split("://").nth(1).unwrap_or("")
+                .split('/').next().unwrap_or("");
+            let is_ta = self.world.tals.iter().any(|tal| {
+                tal.uris.iter().any(|u| *u == entry.uri)
+            });
+            if model::is_dubious(host) && !is_ta {
+                if self.cfg.allow_dubious {
+                    self.stats.probe("dubious-fetch-allowed");
+                }
+                else {
+                    self.violation("C31", "dubious-https", step, format!(
+                        "HTTPS request to {} although dubious hosts are \
+                         not allowed", entry.uri
+                    ));
+                }
+            }
+        }
+        // The fetches the model expects.
+        let want: BTreeSet<String> = expect.rsync_modules.iter().map(|m| {
+            m.trim_start_matches("rsync://").trim_end_matches('/').to_string()
+        }).collect();
+        if want != fetched_modules {
+            self.violation("C29", "rsync-fetch-set", step, format!(
+                "rsync was used for {fetched_modules:?}, the model expects \
+                 {want:?}"
+            ));
+        }
+        let notified: BTreeSet<String> = http_log.iter().filter(|e| {
+            e.uri.ends_with("/rrdp/notification.xml")
+        }).map(|e| e.uri.clone()).collect();
+        if notified != expect.rrdp_repos {
+            self.violation("C29", "rrdp-fetch-set", step, format!(
+                "RRDP notifications fetched for {notified:?}, the model \
+                 expects {:?}", expect.rrdp_repos
+            ));
+        }
+        if !self.cfg.allow_dubious && self.profile.gen.dubious_pct > 0 {
+            self.stats.probe("dubious-filter-active");
+        }
     }
 
     /// C04: the store holds exactly what the model says.
